@@ -200,6 +200,18 @@ CHECKS = {
             "event with a model that applies wrappers from the innermost outwards and the domain's own reset last.",
             "vlib/refsem.py Interp + wrapper model in vchecks/c03.py. Read-port output after the domain's own reset is not judged.",
             "DESIGN.md §4 C03"),
+    "C09": ("exploration",
+            "metamorphic testing: Hypothesis-generated designs converted in child interpreters under different PYTHONHASHSEED "
+            "values and repeatedly in one interpreter (hash of the RTLIL bytes); generated simulations compared across "
+            "run / reset / partial-run+reset / fresh simulator; generated build plans compared across platforms, hash seeds, "
+            "archive() calls and extract()",
+            "The oracle is equality of outputs that must not depend on an uncontrolled factor. Designs are biased to what "
+            "makes ordering matter (several implicitly created domains whose names hash in different orders, name clashes, "
+            "anonymous submodules, attribute-carrying aliases, instances with late-bound clock signals, memories); the same "
+            "descriptor is built and converted in separate interpreters with 4 (quick) / 12 (thorough) hash seeds and three "
+            "times in each. Simulation histories reuse C08's generator; plans reuse C19's.",
+            "vlib/d09.py runs in the child interpreters; children import the working tree under test.",
+            "DESIGN.md §4 C09"),
 }
 
 TITLES = {}
